@@ -89,7 +89,11 @@ def build(r, kind):
         settings = {"replacements": [{"name": pascal, "type": REPL, "impls": r.choice([[], ["Display"], ["Default", "FromStr"]])}]}
         info["affected"] = ["User", "Choice", tname, "Merged"]
     elif kind == "patch":
-        settings = {"patches": [{"name": pascal, "rename": "Renamed" + pascal, "derives": ["PartialEq", "Eq"] if
+        # the new name is the caller's spelling and is used as given (acronyms, underscores, a lower-case initial)
+        newname = r.choice(["Renamed" + pascal, "Renamed" + pascal, "IO" + pascal + "V2", "Re_Named_" + pascal,
+                            "renamed" + pascal, "XMLHttp" + pascal])
+        info["newname"] = newname
+        settings = {"patches": [{"name": pascal, "rename": newname, "derives": ["PartialEq", "Eq"] if
                                  target.get("type") == "string" else ["PartialEq"]}]}
         if target.get("type") != "string":
             settings["patches"][0]["derives"] = ["Default"] if False else ["PartialEq"]
@@ -180,7 +184,7 @@ def syntactic(res, settings, info, rep, case):
             viol("conversion_not_applied_to_definition", "Alias", {"item": alias.get("fields")})
     if kind == "patch":
         p = info["pascal"]
-        newn = "Renamed" + p
+        newn = info.get("newname") or settings["patches"][0]["rename"]
         n += 3
         if ("", p) in items:
             viol("old_name_still_defined", "item", {"name": p})
